@@ -43,3 +43,32 @@ func TestProbeF50ARePushedFileKeepsItsPredecessor(t *testing.T) {
 		t.Errorf("g1.b announces predecessor %q, want \"g1.a\" (emitted completely just before it)", b.GetPrev())
 	}
 }
+
+// ... and the neighbour that must keep working (it did not with the first
+// version of the repair, which let Pop's own removeFile fall back to the OLD
+// place holder): three files emitted one after another announce each other.
+func TestProbeF50ChainOfCompletedFiles(t *testing.T) {
+	log.InitExternal(&mock.Logger{DebugMode: false})
+	groupBy := regexp.MustCompile(`^([^\.]*)`)
+	tagger := func(string) string { return "" }
+	grouper := func(name string) string {
+		if m := groupBy.FindStringSubmatch(name); len(m) > 1 && m[1] != "" && m[1] != name {
+			return m[1]
+		}
+		return ""
+	}
+	q := NewTagged([]*Tag{{Name: "", Order: sts.OrderFIFO}}, tagger, grouper)
+	now := time.Now()
+	want := ""
+	for i, n := range []string{"g1.a", "g1.b", "g1.c", "g1.d"} {
+		q.Push([]sts.Hashed{&mock.File{Name: n, Size: 10, Time: now.Add(time.Duration(i-10) * time.Minute), Hash: "h" + n}})
+		f := q.Pop()
+		if f == nil || f.GetName() != n {
+			t.Fatalf("expected %s, got %v", n, f)
+		}
+		if f.GetPrev() != want {
+			t.Errorf("%s announces predecessor %q, want %q", n, f.GetPrev(), want)
+		}
+		want = n
+	}
+}
